@@ -480,6 +480,32 @@ _accessor("write_aps_frame_counter", {
 })
 
 
+# ---- wiping what a previous network left (restore sequence, first step) --------------------------------------------
+def _factory_reset(with_tokens):
+    def build(c):
+        # "link-key table entries (key and partner)" read back equal those written only if the table is cleared first:
+        # every normal return has issued clearKeyTable; versions with a token store also reset the tokens, frame
+        # counters included (a stale outgoing counter would outlive the restore)
+        c.ensures(
+            "post.key_table_cleared",
+            lambda fx: len([q for q in commands(fx) if q[0] == "clearKeyTable"]) == 1,
+        )
+        c.ensures(
+            "post.tokens_reset_where_the_version_has_them",
+            lambda fx: [q for q in commands(fx) if q[0] == "tokenFactoryReset"]
+            == ([("tokenFactoryReset", {"excludeOutgoingFC": False, "excludeBootCounter": False})] if with_tokens else []),
+        )
+        c.ensures(
+            "post.nothing_else_sent",
+            lambda fx: all(q[0] in ("clearKeyTable", "tokenFactoryReset") for q in commands(fx)), on="any",
+        )
+
+    return build
+
+
+_accessor("factory_reset", {"EZSPv4": _factory_reset(False), "EZSPv13": _factory_reset(True)})
+
+
 # ---- child table ------------------------------------------------------------------------------------------------
 class _ChildMapT:
     """{child0: nwk0, child1: nwk1}: two distinct children (concrete spine, symbolic addresses)"""
